@@ -162,7 +162,7 @@ func c12Run(c *fw.Ctx) {
 		}
 	}
 	paths := []string{"/plain", "/a%2Fb", "/sp%20ace", "/%C3%BCn%C3%AF"}
-	queries := []string{"", "?a=1&a=2&b=3", "?q=x+y%20z"}
+	queries := []string{"", "?a=1&a=2&b=3", "?q=x+y%20z", "?a=1;b=2&c=%zz"}
 	bin := make([]byte, 256)
 	for i := range bin {
 		bin[i] = byte(i)
@@ -350,7 +350,7 @@ func init() {
 		ID:    "C12",
 		Level: "exploration",
 		Rule: "full product, as raw HTTP/1.1 bytes to a real server in front of the real proxy (RSA signer key through the configuration, per-service HMAC key through SSO_CONFIG_<SERVICE>_SIGNING_KEY as documented), recorded at a backend behind the real reverse proxy on a bare-host `to`: " +
-			"signer {on,off} x HMAC {on,off} x method {GET,POST,HEAD (thorough: +PUT,DELETE,OPTIONS)} x client covered-header shapes (Content-Md5, Content-Type, Date, Authorization each {absent, single, two values, empty}: all four alike, or one varied) x other cookies {no,yes} x path {plain, %2F, %20, UTF-8} x query {none, duplicate keys, + and %20} " +
+			"signer {on,off} x HMAC {on,off} x method {GET,POST,HEAD (thorough: +PUT,DELETE,OPTIONS)} x client covered-header shapes (Content-Md5, Content-Type, Date, Authorization each {absent, single, two values, empty}: all four alike, or one varied) x other cookies {no,yes} x path {plain, %2F, %20, UTF-8} x query {none, duplicate keys, + and %20, semicolon separator and malformed escape} " +
 			"x body/framing {none, Content-Length: 0, text sized/chunked, 256-byte binary sized/chunked (thorough: 1 MiB)} x Connection header {plain, nominating covered headers}; " +
 			"oracle at the backend: Sso-Signature verifies (RSA PKCS#1 v1.5, SHA-256) under the PEM published at /oauth2/v1/certs[kid] over the documented canonical form of the received request; Gap-Signature authenticates with an independently constructed hmacauth; body byte-identical; every single mutation of a covered header, the path, the query or the body breaks verification; " +
 			"distinct_nontrivial = distinct forwarded (signer, hmac, method, body, header shape, connection, path, query, cookies) cases",
